@@ -70,66 +70,83 @@ def main():
             qs.append({"q": "chi", "beta": b, "quads": quads, "triples": m["_tri"], "tables": True, "tag": b})
         scen.append(exact.scenario(m, pred[m["id"]], queries=qs))
     recs, crashed = exact.run_split(exe, scen, ms)
-    byid = {}
-    for r in recs:
-        if r.get("e") == "Q":
-            byid.setdefault(r["id"], []).append(r)
-    for sc in scen:
-        m = [x for x in ms if x["id"] == sc["id"]][0]
-        p = pred[m["id"]]
-        desc = json.dumps({k: m[k] for k in ("M", "eps", "U", "rot", "bog", "ph")})
-        if sc["id"] in crashed:
-            c.violation("library crashed on model %s: %s" % (desc, crashed[sc["id"]][-200:]), sc, cls="crash")
-            continue
-        ch = {tuple(t["q"]): t["paths"] for t in p["chi"]}
-        inv = {v: k for k, v in enumerate(m["_im"])}
-        tri = m["_tri"]
-        for r in byid.get(sc["id"], []):
-            beta = r.get("tag")
-            rep = {"model": {k: m[k] for k in m if not k.startswith("_")}, "beta": beta}
-            if "chi" not in r:
-                c.violation("model %s beta=%s: two-particle Green's function failed: %s" % (desc, beta, r.get("fail") or r.get("ex")), rep, cls="exception")
+    def judge(recs, crashed, scen, where, root=True):
+        """root: the tables returned by compute(clear, freqs, comm) are the root's; every rank holds the terms (on-demand values)"""
+        PATHS = ("ondemand", "table_keep", "table_clear", "table_keep_ondemand") if root else ("ondemand", "table_keep_ondemand")
+        TABLES = ("table_keep", "table_clear", "table_keep_ondemand") if root else ("table_keep_ondemand",)
+        byid = {}
+        for r in recs:
+            if r.get("e") == "Q":
+                byid.setdefault(r["id"], []).append(r)
+        for sc in scen:
+            m = [x for x in ms if x["id"] == sc["id"]][0]
+            p = pred[m["id"]]
+            desc = json.dumps({k: m[k] for k in ("M", "eps", "U", "rot", "bog", "ph")})
+            if sc["id"] in crashed:
+                c.violation("library crashed on model %s: %s" % (desc, crashed[sc["id"]][-200:]), sc, cls="crash")
                 continue
-            ok = True
-            for o in r["chi"]:
-                q = tuple(inv[x] for x in o["q"])
-                paths = ch[q]
-                if o["len_nofreq"] != 0:
-                    c.violation("model %s: compute() without frequencies returned a table of %d entries for %s" % (desc, o["len_nofreq"], o["q"]), dict(rep, quad=o["q"]), cls="table:nofreq")
-                    ok = False
-                for key in ("table_keep", "table_clear", "table_keep_ondemand"):
-                    if len(o[key]) != len(tri):
-                        cls = "table:vanishing" if o["vanishing"] else "table:length"
-                        c.violation("model %s beta=%s: %s of %s has %d entries for %d frequencies%s" % (desc, beta, key, o["q"], len(o[key]), len(tri), " (identically vanishing component)" if o["vanishing"] else ""),
-                                    dict(rep, quad=o["q"], path=key), cls=cls)
+            ch = {tuple(t["q"]): t["paths"] for t in p["chi"]}
+            inv = {v: k for k, v in enumerate(m["_im"])}
+            tri = m["_tri"]
+            for r in byid.get(sc["id"], []):
+                beta = r.get("tag")
+                rep = {"model": {k: m[k] for k in m if not k.startswith("_")}, "beta": beta}
+                if where:
+                    rep["where"] = where.strip()
+                if "chi" not in r:
+                    c.violation("model %s beta=%s: two-particle Green's function failed: %s" % (desc, beta, r.get("fail") or r.get("ex")), rep, cls="exception")
+                    continue
+                ok = True
+                for o in r["chi"]:
+                    q = tuple(inv[x] for x in o["q"])
+                    paths = ch[q]
+                    if o["len_nofreq"] != 0:
+                        c.violation("model %s: compute() without frequencies returned a table of %d entries for %s" % (desc, o["len_nofreq"], o["q"]), dict(rep, quad=o["q"]), cls="table:nofreq")
                         ok = False
-                if not ok:
-                    break
-                for ti, t in enumerate(tri):
-                    want, tot = exact.chi_value(p, paths, beta, *t)
-                    tol = 1e-8 * (1 + tot)
-                    for key in ("ondemand", "table_keep", "table_clear", "table_keep_ondemand"):
-                        got = exact.cplx(o[key][ti])
-                        c.evaluations += 1
-                        if not (abs(got - want) <= tol):
-                            c.violation("model %s beta=%s: chi_%s%s via %s = %s, the definition gives %s (allowed %s)" % (
-                                desc, beta, o["q"], t, key, mp.nstr(got, 12), mp.nstr(want, 12), mp.nstr(tol, 3)), dict(rep, quad=o["q"], triple=t, path=key), cls="value:" + key)
+                    for key in TABLES:
+                        if len(o[key]) != len(tri):
+                            cls = "table:vanishing" if o["vanishing"] else "table:length"
+                            c.violation("model %s beta=%s: %s of %s has %d entries for %d frequencies%s" % (desc, beta, key, o["q"], len(o[key]), len(tri), " (identically vanishing component)" if o["vanishing"] else ""),
+                                        dict(rep, quad=o["q"], path=key), cls=cls)
+                            ok = False
+                    if not ok:
+                        break
+                    for ti, t in enumerate(tri):
+                        want, tot = exact.chi_value(p, paths, beta, *t)
+                        tol = 1e-8 * (1 + tot)
+                        for key in PATHS:
+                            got = exact.cplx(o[key][ti])
+                            c.evaluations += 1
+                            if not (abs(got - want) <= tol):
+                                c.violation("model %s beta=%s: chi_%s%s via %s = %s, the definition gives %s (allowed %s)" % (
+                                    desc, beta + where, o["q"], t, key, mp.nstr(got, 12), mp.nstr(want, 12), mp.nstr(tol, 3)), dict(rep, quad=o["q"], triple=t, path=key), cls="value:" + key)
+                                ok = False
+                                break
+                        if not ok:
+                            break
+                        # the two table paths against on-demand evaluation of the same object: tight
+                        a, b2 = exact.cplx(o["table_keep"][ti]), exact.cplx(o["table_keep_ondemand"][ti])
+                        if root and not (abs(a - b2) <= 1e-12 * (1 + abs(a))):
+                            c.violation("model %s beta=%s: table value %s differs from on-demand value %s of the same object for %s%s" % (desc, beta, a, b2, o["q"], t), dict(rep, quad=o["q"], triple=t), cls="table:ondemand")
                             ok = False
                             break
                     if not ok:
                         break
-                    # the two table paths against on-demand evaluation of the same object: tight
-                    a, b2 = exact.cplx(o["table_keep"][ti]), exact.cplx(o["table_keep_ondemand"][ti])
-                    if not (abs(a - b2) <= 1e-12 * (1 + abs(a))):
-                        c.violation("model %s beta=%s: table value %s differs from on-demand value %s of the same object for %s%s" % (desc, beta, a, b2, o["q"], t), dict(rep, quad=o["q"], triple=t), cls="table:ondemand")
-                        ok = False
-                        break
-                if not ok:
-                    break
-                if paths:
-                    c.nontriv("%s %s" % (m["id"], q))
-            if ok:
-                c.traces += 1
+                    if paths:
+                        c.nontriv("%s %s" % (m["id"], q))
+                if ok:
+                    c.traces += 1
+    judge(recs, crashed, scen, "")
+    # several ranks: the parts of one component are computed by different ranks; the table returned at the root is the sum over all of
+    # them (clear = true and false), and with clear = false every rank holds all terms afterwards (on-demand evaluation)
+    NR = 3
+    sub = [s for s in scen if [x for x in ms if x["id"] == s["id"]][0]["M"] == 2][:5] + [s for s in scen if [x for x in ms if x["id"] == s["id"]][0]["M"] == 3][:1]
+    per, done, rc, err = pv.run_driver_ranks(exe, sub, NR, timeout=1500)
+    c.extra["rank_tier"] = {"ranks": NR, "scenarios": len(sub)}
+    if min(done) < len(sub):
+        c.violation("%d ranks: the run did not complete (rc=%s): %s" % (NR, rc, err[-300:].replace("\n", " | ")), {"ranks": NR, "scenario": sub[min(min(done), len(sub) - 1)]}, cls="ranks:termination")
+    for rk in range(NR):
+        judge(per[rk], {}, sub, " [rank %d of %d]" % (rk, NR), root=(rk == 0))
     c.sample({"model": {k: ms[3][k] for k in ("M", "eps", "U", "rot", "bog", "ph")}, "betas": betas, "triples": "all of {-2..1}^3", "quads": "all 16"})
     c.rule = ("exact family: %d two-mode models x all 16 quadruples x all 64 triples of {-2..1}^3 x 3 betas, %d three/four-mode models x sampled quadruples and triples; "
               "4 evaluation paths each; non-trivial = distinct (model, quadruple) with at least one closed path" % (len(ms) - len(ms3), len(ms3)))
